@@ -3,7 +3,7 @@ CONSTANTS
   Cons <- AsgPat
   Terms = {"semi"}
   MaxE = 2
-  MaxS = 2
+  MaxS = 1
   MaxX = 1
   MaxP = 1
   MaxL = 0
